@@ -2,7 +2,10 @@
   Props/C17Full.lean — the module audited for C17: Props/C17ArcEnd.lean (and what it imports) together with
   Props/C17ArcTol.lean (the IEEE / real-analysis instantiations), Props/C17Bezier.lean, Props/C17BezierCubic.lean (the
   tolerance statement for segments of at most four control points, constant 1/24), Props/C17BezierQuartic.lean (at most five
-  control points, constant 1/8), Props/C17BezierQuintic.lean (at most six control points, constant 7/40) and Props/C17Catmull.lean (the
+  control points, constant 1/8), Props/C17BezierQuintic.lean (at most six control points, constant 7/40), Props/C17BezierSextic.lean (at most seven, constant 5/24), Props/C17BezierSeptic.lean (at most
+  eight, constant 17/56), Props/C17BezierOctic.lean (at most nine, constant 3/8), Props/C17BezierNonic.lean
+  (at most ten, constant 31/72), Props/C17BezierDecic.lean (at most eleven, constant 19/40; `comb_step`),
+  Props/C17BezierDeg11.lean (at most twelve, constant 49/88) and Props/C17Catmull.lean (the
   Catmull-Rom chord-error bound over ℝ, `catmull_within_bound_real`). All in namespace Rosu.C17.
 -/
 import RosuModel.Props.C17ArcEnd
@@ -11,4 +14,10 @@ import RosuModel.Props.C17Bezier
 import RosuModel.Props.C17BezierCubic
 import RosuModel.Props.C17BezierQuartic
 import RosuModel.Props.C17BezierQuintic
+import RosuModel.Props.C17BezierSextic
+import RosuModel.Props.C17BezierSeptic
+import RosuModel.Props.C17BezierOctic
+import RosuModel.Props.C17BezierNonic
+import RosuModel.Props.C17BezierDecic
+import RosuModel.Props.C17BezierDeg11
 import RosuModel.Props.C17Catmull
